@@ -662,3 +662,18 @@ M('C06', 'list-resolver-loses-entry-guard', STR,
   'def resolve_conflicted_decisions_list(path, base, decisions, strategy):\n    if not (strategy and strategy != "mergetool" and decisions.has_conflicted()):\n        return\n',
   'def resolve_conflicted_decisions_list(path, base, decisions, strategy):\n    if not (strategy and strategy != "mergetool"):\n        return\n', 'R05.2')
 T('C06', 'twin-combine-patches-sort-in-place', STR, "    return sorted(newdiffs, key=lambda x: x.key)", "    newdiffs.sort(key=lambda x: x.key)\n    return newdiffs")
+
+# ------------------------------------------------------------------------------------------ call-signature compatibility
+M('C03', 'helper-gains-required-parameter-one-caller-missed', STR, "def get_outputs_and_note(base, removes, patches):", "def get_outputs_and_note(base, removes, patches, title):", 'R03.12',
+  edits=[(STR, "        loutputs, lnote = get_outputs_and_note(base_output, lremoves, lpatches)", "        loutputs, lnote = get_outputs_and_note(base_output, lremoves, lpatches, local_title)")])
+T('C03', 'twin-helper-gains-optional-parameter', STR, "def get_outputs_and_note(base, removes, patches):", "def get_outputs_and_note(base, removes, patches, title=None):")
+M('C16', 'renderer-helper-loses-parameter', PP, 'def pretty_print_attachments(attachments, prefix="", config=DefaultConfig):', 'def pretty_print_attachments(attachments, config=DefaultConfig):', 'R16.8')
+
+# ------------------------------------------------------------------------------------------ name binding
+M('C03', 'stale-helper-name-on-rare-arm', MG, "                elif will_diff_counter_parent_deletion(thediff, item_path, strategies):", "                elif will_counter_parent_deletion(thediff, item_path, strategies):", 'R03.13')
+M('C03', 'local-assigned-on-one-branch-only', STR, "    local_conflict_diffs, remote_conflict_diffs = collect_conflicting_diffs(base_path, decisions)\n\n    # Drop conflict decisions\n    decisions.decisions = [d for d in decisions if not d.conflict]\n\n    # FIXME: Review this code.",
+  "    if decisions.has_conflicted():\n        local_conflict_diffs, remote_conflict_diffs = collect_conflicting_diffs(base_path, decisions)\n\n    # Drop conflict decisions\n    decisions.decisions = [d for d in decisions if not d.conflict]\n\n    # FIXME: Review this code.", 'R03.13')
+T('C16', 'twin-local-assigned-under-correlated-guard', PP, "        output, n = r.subn(\"\", output)\n        assert n <= 2, 'unexpected output from external diff renderer'",
+  "        if status is not None:\n            cleaned, n = r.subn(\"\", output)\n        if status is not None:\n            output = cleaned\n            assert n <= 2, 'unexpected output from external diff renderer'")
+M('C16', 'renderer-local-unbound-when-tool-missing', PP, "        output, n = r.subn(\"\", output)\n        assert n <= 2, 'unexpected output from external diff renderer'",
+  "        if status == 0:\n            cleaned, n = r.subn(\"\", output)\n        output = cleaned\n        assert n <= 2, 'unexpected output from external diff renderer'", 'R16.9')
